@@ -93,7 +93,10 @@ fn decode(vi: usize, b: &Bounds, idx: u64) -> Case {
     let nofunc = if modmenu == 1 { modbase + MODSZ } else { modbase + MOD_OFF_NOFUNC };
     let alphabet = [0, 4095, in_func, nofunc, base, base.wrapping_add(p), base.wrapping_add(size) & top, top, 4096, base.wrapping_add(2 * p), 1, base.wrapping_add(size).wrapping_sub(p) & top];
     let tag: u64 = if p == 8 { 0x0008_0000_0000_0000 } else { 0x8000_0000 };
-    let tagged = [0, in_func, in_func | tag, nofunc | tag, base.wrapping_add(p), base.wrapping_add(2 * p) | tag, (in_func | tag) ^ (tag << 3), nofunc];
+    // ... and the return address whose lookup address (minus the call adjustment) is the first byte past module m:
+    // the first byte of the adjacent module n when there is one, no module's otherwise
+    let past_end = (modbase + MODSZ).wrapping_add(arch.adj());
+    let tagged = [0, in_func, in_func | tag, nofunc | tag, base.wrapping_add(p), base.wrapping_add(2 * p) | tag, (in_func | tag) ^ (tag << 3), past_end];
     let words = (0..n).map(|i| if b.tagged { tagged[dg[i] as usize] } else { alphabet[dg[i] as usize] }).collect();
     let bs = base.wrapping_add(size) & top;
     let regs = match ctx {
